@@ -113,6 +113,28 @@ func requestIsolationRule(r *engine.Report, p *engine.Program, rule string) {
 				if reset {
 					continue
 				}
+				// or: the value carried round the loop is only ever re-sliced to [:0] before use
+				onlyReset := true
+				if refs := ph.Referrers(); refs != nil {
+					for _, rr := range *refs {
+						switch x := rr.(type) {
+						case *ssa.DebugRef:
+						case *ssa.Slice:
+							hi, isC := int64(-1), false
+							if x.High != nil {
+								hi, isC = engine.ConstInt(x.High)
+							}
+							if !isC || hi != 0 {
+								onlyReset = false
+							}
+						default:
+							onlyReset = false
+						}
+					}
+				}
+				if onlyReset {
+					continue
+				}
 			}
 		}
 		bad = append(bad, fmt.Sprintf("variable %s (%s) keeps its value from one request to the next", strings.TrimPrefix(ph.Comment, "#"), ph.Type()))
